@@ -55,3 +55,14 @@ Example C08_nonvacuous :
   (exists r, reduce_any RMedian false (AxOne (ByName "x")) ex_a = Ok (VArr r) /\ dims r = ["y"%string] /\ dat (vals r) = [CNaN]) /\
   reduce_any RSum true (AxMany [ByName "y"; ByPos 0]) ex_a = Ok (VCell (N_ 6)).
 Proof. split; [split; reflexivity|]. split; [eexists; repeat split; reflexivity | reflexivity]. Qed.
+
+(* percentile is one of the reductions of the model ([RPct q], linear interpolation between the order statistics, exact on
+   rationals): the theorems above hold for it as for every [redfn] (C08_along_axis, C08_axis_none, C08_tuple,
+   C08_by_name_or_position, C08_nan_propagates - [f] ranges over all reductions, [RPct q] included) *)
+Definition pct_of (q : Q) (l : list cell) : Q := match red_cell (RPct q) false l with CNum x => x | _ => (-1)%Q end.
+Example C08_percentile_nonvacuous :
+  Qeq_bool (pct_of 50 [N_ 4; N_ 1; N_ 3; N_ 2]) (5 # 2) = true /\
+  Qeq_bool (pct_of 25 [N_ 4; N_ 1; N_ 3; N_ 2]) (7 # 4) = true /\
+  Qeq_bool (pct_of 0 [N_ 4; N_ 1; N_ 3]) 1 = true /\ Qeq_bool (pct_of 100 [N_ 4; N_ 1; N_ 3]) 4 = true /\
+  red_cell (RPct 50) false [N_ 4; CNaN; N_ 3] = CNaN.
+Proof. repeat split; vm_compute; reflexivity. Qed.
